@@ -163,19 +163,23 @@ CLAIMS = {
         note="Trusted base: numpy linalg.inv/matmul; values of H, h (C03, sympy). Corollaries of the formulas are not separately checked.",
         ref="3/C05"),
     "C10": dict(
-        technique="IR-level symbolic execution + sign analysis of the step functions (Python ast, clang AST); static",
-        engine="E5 rtmodel + E4 cppast",
-        text="Static: runtime._process_model and both C++ processUpdate overloads (4 control x calibration instantiations) are lowered "
-             "to one IR and symbolically executed under the forward/backward scenarios; DIR/MAG/TEMPLATE/READ-ONLY rules + the lemma "
-             "of DESIGN.md imply every clause; the configured maximum reaches the generated C++ constant losslessly.",
+        technique="IR-level symbolic execution + sign analysis + estimate value-flow (typestate) of the step functions (Python ast, clang AST); static",
+        engine="E5 rtmodel + estflow + E4 cppast",
+        text="Static: runtime._process_model and both C++ processUpdate overloads (4 control x calibration instantiations; private helpers, "
+             "generators and member templates inlined) are lowered to one IR and symbolically executed under the forward/backward scenarios; "
+             "DIR/MAG/TEMPLATE/READ-ONLY rules + the lemma of DESIGN.md imply every clause; CHAIN: every step starts from the newest estimate "
+             "(state / covariance / control in their own parameters) and the newest estimate is returned; the configured maximum reaches the "
+             "generated C++ constant losslessly.",
         note="Assumes max_dt_sec > 0 and moderate times (the property's quantifier); trusts clang's front end and IEEE floor/abs.",
         ref="3/C10"),
     "C11": dict(
-        technique="ordered call/effect event extraction of every tick body vs a tick plan (Python ast, clang AST); static",
-        engine="E5 rtmodel + E4 cppast",
-        text="Static: the Python tick and all C++ tick overloads (4 instantiations) are flattened to ordered STEP/UPDATE/WRITE/RETURN "
-             "events and checked against the TickPlan: readings folded in the given order, held fields written per reading, output "
-             "propagation returned and never held, control required and passed on, Python and C++ skeletons equal.",
+        technique="ordered call/effect event extraction of every tick body vs a tick plan + estimate value-flow + guard normal forms (Python ast, clang AST); static",
+        engine="E5 rtmodel + estflow + E4 cppast",
+        text="Static: the Python tick and all C++ tick overloads (4 instantiations; helpers inlined) are flattened to ordered "
+             "STEP/UPDATE/WRITE/RETURN events and checked against the TickPlan: readings folded in the given order (the argument itself, only an "
+             "absent one read as empty), held fields written per reading component by component, the update applied to the held estimate with the "
+             "reading's own key and data, output propagation returned and never held, control required (guard = exactly `control is None and "
+             "control_size > 0`) and passed on, Python and C++ skeletons equal.",
         note="Trusts clang's front end. The step function's own purity is C10/READ-ONLY. Values of process/sensor models are C04/C05.",
         ref="3/C11"),
 }
